@@ -203,7 +203,7 @@ def run_shexer(nt, cfg, t=0, history=False):
         if not history:
             return first, [], 1
         events, last, calls = [], first, 1
-        other = 0.5 if t != 0.5 else 0
+        other = 1 if t != 1 else 0            # high enough to empty shapes when the checked threshold is low
 
         def fresh():
             sh, c = build_shaper(nt, cfg)
@@ -259,6 +259,79 @@ def run_shexer(nt, cfg, t=0, history=False):
         signal.signal(signal.SIGALRM, old)
         for cl in cleanups:
             cl()
+
+
+def run_threshold_walk(nt, cfg, thresholds):
+    """ONE Shaper asked for shex_graph at the given thresholds in turn; every answer is compared with a fresh
+    Shaper's.  -> [(index, t, detail)] deviations, number of calls.  Raises if the very first call raises."""
+    old = signal.signal(signal.SIGALRM, _on_alarm)
+    signal.alarm(TIMEOUT)
+    cleanups, out, calls = [], [], 0
+    try:
+        shaper, cl = build_shaper(nt, cfg)
+        cleanups.append(cl)
+        for i, t in enumerate(thresholds):
+            fresh_sh, c2 = build_shaper(nt, cfg)
+            cleanups.append(c2)
+            calls += 2
+            try:
+                want = fresh_sh.shex_graph(string_output=True, acceptance_threshold=t)
+            except WallClockTimeout:
+                raise
+            except Exception:
+                if i == 0:
+                    raise
+                continue                          # this threshold crashes on a fresh Shaper as well: not comparable
+            try:
+                got = shaper.shex_graph(string_output=True, acceptance_threshold=t)
+            except WallClockTimeout:
+                raise
+            except Exception as exc:
+                out.append((i, t, "crash:%s" % type(exc).__name__, "raised %s: %s" % (type(exc).__name__, exc)))
+                continue
+            if got != want:
+                out.append((i, t, "differs-from-fresh-shaper", _first_diff(want, got)))
+        return out, calls
+    finally:
+        signal.alarm(0)
+        signal.signal(signal.SIGALRM, old)
+        for cl in cleanups:
+            cl()
+
+
+def run_shacl_paths(nt, cfg, t=0):
+    """SHACL output of one fresh Shaper read with rdflib -> set of (node shape IRI, inverse?, predicate IRI)."""
+    import rdflib
+    SH = "http://www.w3.org/ns/shacl#"
+    old = signal.signal(signal.SIGALRM, _on_alarm)
+    signal.alarm(TIMEOUT)
+    cleanups = []
+    try:
+        shaper, cl = build_shaper(nt, cfg)
+        cleanups.append(cl)
+        text = shaper.shex_graph(string_output=True, acceptance_threshold=t, output_format="Shacl")
+    finally:
+        signal.alarm(0)
+        signal.signal(signal.SIGALRM, old)
+        for cl in cleanups:
+            cl()
+    g = rdflib.Graph()
+    g.parse(data=text, format="turtle")
+    U = rdflib.URIRef
+    out = set()
+    for shape, _, ps in g.triples((None, U(SH + "property"), None)):
+        if not isinstance(shape, rdflib.URIRef):
+            continue
+        for path in g.objects(ps, U(SH + "path")):
+            if isinstance(path, rdflib.URIRef):
+                out.add((str(shape), False, str(path)))
+            else:
+                for q in g.objects(path, U(SH + "inversePath")):
+                    out.add((str(shape), True, str(q)))
+        for inner in g.objects(ps, U(SH + "property")):          # sheXer's rendering: sh:property [ sh:inversePath p ]
+            for q in g.objects(inner, U(SH + "inversePath")):
+                out.add((str(shape), True, str(q)))
+    return out
 
 
 def _first_diff(a, b):
@@ -524,6 +597,38 @@ def same_text_graph(rng):
     return T
 
 
+def nonliteral_uniform_graph(rng):
+    """One class whose instances reach a property's non-literal values either only through blank nodes (each exactly b of
+    them) or only through IRIs (each exactly a of them), never both; the same pattern for an incoming property.  The merged
+    NONLITERAL figure is exact in this situation."""
+    M, S, G = lib()
+    n_b, n_i, n_0 = rng.randint(1, 3), rng.randint(1, 3), rng.randint(0, 2)
+    a, b = rng.randint(1, 3), rng.randint(1, 3)
+    inst = [M.IRI(G.EX + "i%d" % i) for i in range(n_b + n_i + n_0)]
+    T = [M.Triple(x, M.RDF_TYPE, M.IRI(G.CLASS_A)) for x in inst]
+    typed_targets = rng.random() < 0.4
+    k = 0
+    for x in inst[:n_b]:
+        for j in range(b):
+            k += 1
+            T.append(M.Triple(x, G.PROP_P, M.BNode("v%d" % k)))
+            T.append(M.Triple(M.BNode("w%d" % k), G.EX + "inc", x))
+    for x in inst[n_b:n_b + n_i]:
+        for j in range(a):
+            k += 1
+            o = M.IRI(G.OTHER + "t%d" % k)
+            T.append(M.Triple(x, G.PROP_P, o))
+            if typed_targets and j == 0:
+                T.append(M.Triple(o, M.RDF_TYPE, M.IRI(G.CLASS_B)))
+            T.append(M.Triple(M.IRI(G.OTHER + "s%d" % k), G.EX + "inc", x))
+    for x in inst:
+        if rng.random() < 0.5:
+            T.append(M.Triple(x, G.PROP_Q, M.Lit("x")))
+    T = dedup(T)
+    rng.shuffle(T)
+    return T
+
+
 def add_duplicate_lines(T, rng, kind, n=1):
     """Repeat n statements of T (kind 'type': instantiation triples, 'data': others) at a later position."""
     M = lib()[0]
@@ -763,8 +868,31 @@ def close(a, b, rel=1e-6):
     return abs(a - b) <= rel * max(1.0, abs(a), abs(b))
 
 
-def check_figures(pid, nd, spec, l2c, cfg, report):
-    """C01's comparison of every printed figure with the oracle.  report(key, what, observed, expected)."""
+def _nonlit_table(T, spec, C, d, p):
+    """For the instances of C: {cardinality or '+': count} of non-literal values of p, or None when the merged
+    IRI+BNode figure is not exact (an instance has both kinds, or a kind has no uniform cardinality)."""
+    M, S, G = lib()
+    inst = set(spec.inst.get(C, ()))
+    a, b = collections.Counter(), collections.Counter()
+    for (s_, p_, o_) in T:
+        if p_ != p or M.is_literal(o_):
+            continue
+        x, other = (s_, o_) if d == S.DIRECT else (o_, s_)
+        if x in inst:
+            (a if isinstance(other, M.IRI) else b)[x] += 1
+    if set(a) & set(b) or len(set(a.values())) > 1 or len(set(b.values())) > 1:
+        return None
+    out = collections.Counter()
+    for cnt in list(a.values()) + list(b.values()):
+        out[cnt] += 1
+        out[S.PLUS] += 1
+    return out
+
+
+def check_figures(pid, nd, spec, l2c, cfg, report, T=None):
+    """C01's comparison of every printed figure with the oracle.  report(key, what, observed, expected).
+    Disjunctions (OR) must carry the figure of one of their members; with T given, NONLITERAL-merged figures are
+    checked exactly when no instance mixes IRI and blank-node values and each kind has one uniform cardinality."""
     S = lib()[1]
     pi = spec.pi
     gen_exact = bool(cfg.get("disable_exact_cardinality"))
@@ -781,9 +909,37 @@ def check_figures(pid, nd, spec, l2c, cfg, report):
             continue
         for (c, source, value, card, ratio, rt, count, raw) in figures(sh):
             k = kind_of(value, l2c)
-            if k is None:
-                continue                                   # NONLITERAL-merged figure: skipped
             d = S.INVERSE if c["inv"] else S.DIRECT
+            if k is None and value[0] == "or":
+                members = [kind_of(v, l2c) for v in value[1]]
+                hit = False
+                for km in members:
+                    if km is None or isinstance(km, tuple):
+                        continue
+                    n = spec.prof.get((C, d, c["p"], km, card), 0)
+                    if (count is None or count == n) and (ratio is None or close(ratio, 100.0 * n / N)):
+                        hit = True
+                if not hit:
+                    report("%s:count-mismatch:%s:or:%s" % (pid, d, cclass(card)),
+                           "%s %s%s: the disjunction %r with cardinality %r reports n=%r ratio=%r, which is the figure of none of "
+                           "its members [%s: %s]" % (sh["label"], "^" if c["inv"] else "", c["p"], members, card, count, ratio,
+                                                     source, raw.strip()), {"count": count, "ratio": ratio}, None)
+                continue
+            if k is None and value[0] == "NONLITERAL" and T is not None:
+                tab = _nonlit_table(T, spec, C, d, c["p"])
+                if tab is not None:
+                    cards = [card] + ([x for x in tab if isinstance(x, int) and x > 1]
+                                      if gen_exact and source == "line" and card == S.PLUS else [])
+                    if not any((count is None or count == tab.get(cc, 0)) and (ratio is None or close(ratio, 100.0 * tab.get(cc, 0) / N))
+                               for cc in cards):
+                        report("%s:nonliteral-merge:%s-mismatch" % (pid, "count" if count is not None and count != tab.get(card, 0) else "ratio"),
+                               "%s %s%s NONLITERAL card=%r: printed n=%r ratio=%r, but %d of %d instances have exactly that many "
+                               "non-literal values (no instance mixes IRIs and blank nodes) [%s: %s]"
+                               % (sh["label"], "^" if c["inv"] else "", c["p"], card, count, ratio, tab.get(card, 0), N, source, raw.strip()),
+                               {"count": count, "ratio": ratio}, {"count": tab.get(card, 0), "ratio": 100.0 * tab.get(card, 0) / N})
+                continue
+            if k is None:
+                continue                                   # NONLITERAL-merged figure with mixed instances: skipped
             if isinstance(k, tuple):
                 report("%s:unknown-shape-ref:%s" % (pid, d), "reference to a shape of no known class: %s" % raw,
                        value[1], sorted(l2c))
